@@ -23,6 +23,17 @@ CHECKS = {
          "state (rejections must be pure).", "6 C04", "TLA+ action clauses on TLC-validated implementation traces"),
  "C07": ("model_checking", "Join generation monitor (arrivals, fired, started) in Props; C07_safe/once/unreachable.", "6 C07",
          "TLA+ monitor on TLC-validated implementation traces"),
+ "C05": ("model_checking", "Live run vs the same history with deserialize(serialize()) inserted after every call / random subsets / single "
+         "points; C05_same_steps / same_final / idempotent evaluated by TLC (spec/Groups.tla) on the recorded twins; Persist is a stuttering step of Spec B.", "6 C05",
+         "TLA+ relational check (Groups.tla) over twin runs of the real conductor"),
+ "C08": ("model_checking", "All linearisations of each (acyclic definition, outcome per task) scenario explored on the real conductor; the "
+         "terminal observations of one scenario are related by C08_* in spec/Groups.tla.", "6 C08",
+         "TLA+ relational check over exhaustively explored report orders"),
+ "C09": ("model_checking", "C09 step clauses on every call of histories with a pause at every position, Spec B model-checked with them, and each "
+         "paused terminal run related to its de-paused twin by C09_same_* (spec/Groups.tla).", "6 C09",
+         "TLA+ step clauses + relational twin check, TLC model checking of Spec B"),
+ "C10": ("model_checking", "C10_* clauses with cancel requested at every position (from running, pausing, paused, resuming); Spec B model-checked with them.", "6 C10",
+         "TLA+ clauses on TLC-validated implementation traces + TLC model checking of Spec B"),
  "C18": ("model_checking", "Append-only action properties over consecutive recorded states.", "6 C18",
          "TLA+ action properties on TLC-validated implementation traces"),
 }
